@@ -162,51 +162,62 @@ theorem mapGet_notFound_iff (m : List (Bytes × Int)) (k : Bytes) :
 /-! ## read after reopen, crash points -/
 
 /-- hypotheses on a history of writes (most recent first) into a database of key length `klen` -/
-structure WellFormed (klen : Nat) (c : Bool) (hist : List W) : Prop where
+structure WellFormedOver (left : Bytes) (oldIdx : Option Bytes) (klen : Nat) (c : Bool) (hist : List W) : Prop where
   klen_le : klen ≤ 118
   keys : ∀ w ∈ hist, w.key.length = klen
   sizes : ∀ w ∈ hist, w.stored.length < 2 ^ 31
   count : hist.length < 2 ^ 31
-  total : (afterWrites klen c hist).dat.length < 2 ^ 63
+  total : (afterWritesOver left oldIdx klen c hist).dat.length < 2 ^ 63
   /-- the codec: without compression the stored bytes are the content; with it, decompression is a function -/
   codec : if c then (∀ w ∈ hist, ∀ w' ∈ hist, w.stored = w'.stored → w.content = w'.content)
           else ∀ w ∈ hist, w.stored = w.content
 
-/-- **read_after_reopen + crash_prefix_safe_partial**. After any history of writes, `Save`, a crash that left
+/-- a store into fresh files -/
+abbrev WellFormed (klen : Nat) (c : Bool) (hist : List W) : Prop := WellFormedOver [] none klen c hist
+
+/-- **read_after_reopen + crash_prefix_safe_partial, over ANY leftover files** (`left`: whatever bytes an earlier,
+crashed attempt left in the data file — shorter or longer than what is stored now; `oldIdx`: an old index file).
+`Create` neither truncates nor appends: the records are written from offset 0 over the leftover, at the offsets the
+index records. After any history of writes, `Save`, a crash that left
 only the first `n` bytes of the data file (`n` ≥ its length: no crash) and `Open` (index file complete):
 `Open` succeeds, and for every written key `k` — whose last record `w` lies at offset `o` —
 * if all bytes of that record are on disk, `Read k` returns exactly the content last written under `k`
   (compressed or not);
 * otherwise `Read k` is an error. It never returns other data.
 Not modelled (hence `_partial`): the OS reordering writes, `fsync`. -/
-theorem read_after_reopen_crash (klen : Nat) (c : Bool) (hist : List W) (wf : WellFormed klen c hist)
+theorem store_over_leftover_crash (left : Bytes) (oldIdx : Option Bytes) (klen : Nat) (c : Bool) (hist : List W)
+    (wf : WellFormedOver left oldIdx klen c hist)
     (n : Nat) (k : Bytes) (w : W) (hw : lastWrite hist k = some w) :
-    let d0 := (afterWrites klen c hist).save
+    let d0 := (afterWritesOver left oldIdx klen c hist).save
     let d1 : DB := { d0 with dat := d0.dat.take n }
     d1.openFixed.2 = .ok ∧
     ∃ o : Nat, (k, o) ∈ d0.midx ∧
       (o + 4 + w.stored.length ≤ n → d1.openFixed.1.read k = .data w.content) ∧
       (n < o + 4 + w.stored.length → d1.openFixed.1.read k = .err) := by
   intro d0 d1
-  have inv := afterWrites_inv klen c hist
+  have inv := afterWritesOver_inv left oldIdx klen c hist
   have hk := wf.klen_le
-  have hmidx : d0.midx = (afterWrites klen c hist).midx := rfl
-  have hu : Uniform klen (afterWrites klen c hist).midx := by
+  have hmidx : d0.midx = (afterWritesOver left oldIdx klen c hist).midx := rfl
+  have hu : Uniform klen (afterWritesOver left oldIdx klen c hist).midx := by
     intro e he
     obtain ⟨w', _, _, hl, _, _⟩ := inv.entry e he
     have := lastWrite_mem hl
     rw [← this.2]; exact wf.keys _ this.1
-  have hoff : ∀ e ∈ (afterWrites klen c hist).midx, e.2 < 2 ^ 63 := by
+  have hoff : ∀ e ∈ (afterWritesOver left oldIdx klen c hist).midx, e.2 < 2 ^ 63 := by
     intro e he
     obtain ⟨w', pre, post, _, hd, hp⟩ := inv.entry e he
-    have : pre.length ≤ (afterWrites klen c hist).dat.length := by rw [hd]; simp
+    have : pre.length ≤ (afterWritesOver left oldIdx klen c hist).dat.length := by rw [hd]; simp
     have := wf.total
     omega
-  have hn : (afterWrites klen c hist).midx.length < 2 ^ 31 := by have := inv.len_le; have := wf.count; omega
-  have hdec := decodeFixed_encodeIndex klen hk _ hu hn
-  have hopen : d1.openFixed = ({ d1 with oidx := .fixed (encodeEntries (sortEntries (afterWrites klen c hist).midx)),
+  have hn : (afterWritesOver left oldIdx klen c hist).midx.length < 2 ^ 31 := by have := inv.len_le; have := wf.count; omega
+  have hdec := decodeFixed_encodeIndex_tail klen hk _ hu hn
+  have hopen : d1.openFixed = ({ d1 with oidx := .fixed (encodeEntries (sortEntries (afterWritesOver left oldIdx klen c hist).midx)),
                                            phase := .opened, atStart := true }, OpenRes.ok) :=
-    DB.openFixed_ok d1 _ _ rfl (by rw [show d1.klen = klen from inv.klen_eq]; exact hdec)
+    DB.openFixed_ok d1 _ _ rfl (by
+      rw [show d1.klen = klen from inv.klen_eq]
+      show decodeFixed klen (overwriteAt _ 0 (encodeIndex _)) = _
+      rw [show ∀ (o e : Bytes), overwriteAt o 0 e = e ++ o.drop e.length from by intro o e; simp [overwriteAt]]
+      exact hdec _)
   obtain ⟨o, ho⟩ := inv.cover k w hw
   refine ⟨by rw [hopen], o, ho, ?_⟩
   obtain ⟨w', pre, post, hl, hd, hp⟩ := inv.entry (k, o) ho
@@ -214,19 +225,19 @@ theorem read_after_reopen_crash (klen : Nat) (c : Bool) (hist : List W) (wf : We
   rw [hw] at hl; injection hl with hl; subst hl
   have hwm := (lastWrite_mem hw).1
   -- the lookup
-  have hlook : getOffset (encodeEntries (sortEntries (afterWrites klen c hist).midx)) klen k = .found (o : Int) :=
+  have hlook : getOffset (encodeEntries (sortEntries (afterWritesOver left oldIdx klen c hist).midx)) klen k = .found (o : Int) :=
     lookup_present_partial klen hk _ inv.nodup hu hoff k o ho
   -- what is read at that offset from the truncated file
-  have hsrc : ((afterWrites klen c hist).dat.take n).drop o = (encodeRecord w.stored ++ post).take (n - o) := by
+  have hsrc : ((afterWritesOver left oldIdx klen c hist).dat.take n).drop o = (encodeRecord w.stored ++ post).take (n - o) := by
     rw [List.drop_take, hd, ← hp, List.drop_left]
   have hpre := readRecord_prefix w.stored post (wf.sizes w hwm) (n - o)
-  have hro : readAt ((afterWrites klen c hist).dat.take n) (o : Int) =
+  have hro : readAt ((afterWritesOver left oldIdx klen c hist).dat.take n) (o : Int) =
       readRecord ((encodeRecord w.stored ++ post).take (n - o)) := by
     unfold readAt
     rw [if_neg (by omega), Int.toNat_natCast, hsrc]
   have hrd := DB.read_found d1.openFixed.1 _ k (o : Int) (by rw [hopen])
     (by rw [hopen]; show getOffset _ d1.klen k = _; rw [show d1.klen = klen from inv.klen_eq]; exact hlook)
-  have hdat : d1.openFixed.1.dat = (afterWrites klen c hist).dat.take n := by rw [hopen]; rfl
+  have hdat : d1.openFixed.1.dat = (afterWritesOver left oldIdx klen c hist).dat.take n := by rw [hopen]; rfl
   rw [hdat, hro] at hrd
   have hdp : ∀ p, d1.openFixed.1.decodePayload p =
       if c then Codec.decompress (hist.map (fun w => (w.stored, w.content))) p else some p := by
@@ -259,13 +270,17 @@ theorem read_after_reopen_crash (klen : Nat) (c : Bool) (hist : List W) (wf : We
     rw [hrd]
     rcases hpre.2 (by omega) with h | h <;> rw [h]
 
-/-- **read_after_reopen** (no crash): the record written last under each key reads back exactly. -/
-theorem read_after_reopen (klen : Nat) (c : Bool) (hist : List W) (wf : WellFormed klen c hist)
+/-- **round trip of a store over ANY leftover content** (no crash afterwards): whatever was in the data file and
+the index file before `Create`, every record written last under a key reads back exactly after `Save` and `Open`.
+(This is what opening the data file with `O_APPEND` breaks: the records would land behind the leftover while the
+index says offset 0.) -/
+theorem store_over_leftover_round_trip (left : Bytes) (oldIdx : Option Bytes) (klen : Nat) (c : Bool) (hist : List W)
+    (wf : WellFormedOver left oldIdx klen c hist)
     (k : Bytes) (w : W) (hw : lastWrite hist k = some w) :
-    let d0 := (afterWrites klen c hist).save
+    let d0 := (afterWritesOver left oldIdx klen c hist).save
     d0.openFixed.2 = .ok ∧ d0.openFixed.1.read k = .data w.content := by
   intro d0
-  have h := read_after_reopen_crash klen c hist wf d0.dat.length k w hw
+  have h := store_over_leftover_crash left oldIdx klen c hist wf d0.dat.length k w hw
   simp only at h
   have hd : ({ d0 with dat := d0.dat.take d0.dat.length } : DB) = d0 := by
     rw [List.take_length]
@@ -273,11 +288,29 @@ theorem read_after_reopen (klen : Nat) (c : Bool) (hist : List W) (wf : WellForm
   obtain ⟨h1, o, ho, h2, _⟩ := h
   refine ⟨h1, h2 ?_⟩
   -- the record lies inside the file
-  obtain ⟨w', pre, post, hl, hdat, hp⟩ := (afterWrites_inv klen c hist).entry (k, o) ho
+  obtain ⟨w', pre, post, hl, hdat, hp⟩ := (afterWritesOver_inv left oldIdx klen c hist).entry (k, o) ho
   simp only at hl hp
   rw [hw] at hl; injection hl with hl; subst hl
-  show o + 4 + w.stored.length ≤ (afterWrites klen c hist).dat.length
+  show o + 4 + w.stored.length ≤ (afterWritesOver left oldIdx klen c hist).dat.length
   rw [hdat]; simp [encodeRecord_length]; omega
+
+/-- **read_after_reopen + crash_prefix_safe_partial** for fresh files -/
+theorem read_after_reopen_crash (klen : Nat) (c : Bool) (hist : List W) (wf : WellFormed klen c hist)
+    (n : Nat) (k : Bytes) (w : W) (hw : lastWrite hist k = some w) :
+    let d0 := (afterWrites klen c hist).save
+    let d1 : DB := { d0 with dat := d0.dat.take n }
+    d1.openFixed.2 = .ok ∧
+    ∃ o : Nat, (k, o) ∈ d0.midx ∧
+      (o + 4 + w.stored.length ≤ n → d1.openFixed.1.read k = .data w.content) ∧
+      (n < o + 4 + w.stored.length → d1.openFixed.1.read k = .err) :=
+  store_over_leftover_crash [] none klen c hist wf n k w hw
+
+/-- **read_after_reopen** (fresh files, no crash): the record written last under each key reads back exactly. -/
+theorem read_after_reopen (klen : Nat) (c : Bool) (hist : List W) (wf : WellFormed klen c hist)
+    (k : Bytes) (w : W) (hw : lastWrite hist k = some w) :
+    let d0 := (afterWrites klen c hist).save
+    d0.openFixed.2 = .ok ∧ d0.openFixed.1.read k = .data w.content :=
+  store_over_leftover_round_trip [] none klen c hist wf k w hw
 
 /-- **torn_index_detected**: a crash while `Save` writes the index file leaves a proper prefix of it (or no
 file); `Open` then fails — no record is served from a torn index. -/
@@ -318,6 +351,38 @@ example : getOffsetFuel true (encodeEntries (sortEntries (afterWrites 2 false ex
 example : ((afterWrites 2 false exHist).save.openFixed.1.read [0, 0]) = .notFound := by decide
 example : (afterWrites 2 false exHist).save.idx =
     some [2, 0, 0, 0, 2, 1, 2, 5, 0, 0, 0, 0, 0, 0, 0, 2, 3, 4, 11, 0, 0, 0, 0, 0, 0, 0] := by decide
+
+/-! ## crash, then store again under the same name -/
+
+/-- a leftover that is a torn record (3 of its 5 bytes), and one that is LONGER than everything stored now -/
+def tornLeft : Bytes := [1, 0, 0]
+def longLeft : Bytes := [9, 9, 9, 9, 9, 9, 9, 9, 9, 9, 9, 9, 9, 9, 9, 9, 9, 9, 9, 9, 9, 9, 9, 9, 9, 9, 9, 9, 9, 9]
+
+example : WellFormedOver longLeft (some [7, 7, 7]) 2 false exHist :=
+  { klen_le := by decide, keys := by decide, sizes := by decide, count := by decide, total := by decide,
+    codec := by decide }
+example : ((afterWritesOver tornLeft none 2 false exHist).save.openFixed.1.read [3, 4]) = .data [0xdd] := by decide
+example : ((afterWritesOver longLeft (some [7, 7, 7]) 2 false exHist).save.openFixed.1.read [1, 2]) = .data [0xaa, 0xbb] := by decide
+/-- `ReadAll` after a store over a LONGER leftover: exactly the stored records in order (it reads as many records
+as the index has keys, so what lies behind them is never interpreted — with distinct keys) -/
+example : (afterWritesOver longLeft none 2 false [⟨[3, 4], [0xdd], [0xdd]⟩, ⟨[1, 2], [0xaa], [0xaa]⟩]).save.openFixed.1.readAll
+    = .ok [[0xaa], [0xdd]] := by decide
+
+/-- the counterfactual `WriteData` on a data file opened with `O_APPEND`: the offset recorded is still the file
+position (`Seek(0,1)`: 0 before the first write), but the bytes land at the END of the file -/
+def DB.writeAppendMode (d : DB) (key content stored : Bytes) : DB :=
+  { d with midx := d.midx.set key d.pos,
+           dat := d.dat ++ encodeRecord stored,
+           pos := (d.dat ++ encodeRecord stored).length,
+           codec := (stored, content) :: d.codec }
+
+/-- **why `Create` must not append**: over a torn leftover the real write semantics read the record back, the
+append-mode semantics index offset 0 while the record lies behind the leftover — `Read` does not return it -/
+theorem append_mode_breaks_retry :
+    let start : DB := { DB.create 1 false with dat := tornLeft }
+    ((start.write [5] [0xaa] [0xaa]).save.openFixed.1.read [5]) = .data [0xaa] ∧
+    ((start.writeAppendMode [5] [0xaa] [0xaa]).save.openFixed.1.read [5]) ≠ .data [0xaa] := by
+  refine ⟨by decide, by decide⟩
 
 end ZChain.BlockDB
 
